@@ -19,3 +19,10 @@ Definition check_neg (c : ikind * Z * res Z) : bool :=
 Definition check_sat (c : ikind * binop * Z * Z * res Z) : bool :=
   let '(k, o, a, b, obs) := c in
   res_eqb Z.eqb (sat_model k o a b) obs.
+
+From CV Require Export Num.BitsModel.
+(* (kind, bitop, a, b, observed): the bounded kinds must match exactly; Int/UInt may report Overflow
+   instead when the amount does not fit 64 bits (decided by bits_allowed, here as a boolean) *)
+Definition check_bits (c : ikind * bitop * Z * Z * res Z) : bool :=
+  let '(k, o, a, b, obs) := c in
+  res_eqb Z.eqb (bits_model k o a b) obs.
